@@ -191,6 +191,13 @@ func genAttack(rt *rapid.T, w *chain.World, n *chain.Node, c *harness.Case) atta
 		}
 		return chain.Addr(v).Equals(chain.Addr(atk))
 	}
+	// nodeExists: the generated pre-history may have unstaked a node completely (unstaking time 0): its record is gone,
+	// and then ANY funded key may stake that public key again naming itself as output address and paying the stake from
+	// its own balance (the non-custodial staking flow) - that is an authorized transaction, not an attack.
+	nodeExists := func(v crypto.PrivateKey) bool {
+		_, found := n.App.VerifNodesKeeper().GetValidator(n.Ctx(), chain.Addr(v))
+		return found
+	}
 	attackerHasApp := false
 	for _, rec := range n.App.VerifAppsKeeper().GetAllApplications(n.Ctx()) {
 		if rec.Address.Equals(chain.Addr(atk)) {
@@ -276,7 +283,7 @@ func genAttack(rt *rapid.T, w *chain.World, n *chain.Node, c *harness.Case) atta
 	case "nodeEdit":
 		idx := rapid.IntRange(0, len(w.Nodes)-1).Draw(rt, "node")
 		v := w.Nodes[idx]
-		if authorizedForNode(v) {
+		if authorizedForNode(v) || !nodeExists(v) {
 			msg := &nodesTypes.MsgSend{FromAddress: chain.Addr(w.Spare[1]), ToAddress: chain.Addr(atk), Amount: sdk.NewInt(9)}
 			if atk.PublicKey().Equals(w.Spare[1].PublicKey()) {
 				msg.FromAddress = chain.Addr(w.Spare[0])
